@@ -191,6 +191,8 @@ class WireLog():
 
         # always recreates if dirPath is empty or if some creation parameter has changed
         if (not self.dirPath or
+            (self.rxl is not None and self.rxl.closed) or  # closed above so recreate
+            (self.txl is not None and self.txl.closed) or
             rxed is not None or
             txed is not None or
             samed is not None or
